@@ -65,6 +65,18 @@ def num_of(s, style):
         return int(f)
     return f
 
+def subs_form(obj, c, i):
+    """the same substitution lam -> c in each of the call forms sympy's subs accepts (rotated over the values of c)"""
+    lam, val = LAM(), c_py(c)
+    form = i % 4
+    if form == 0:
+        return obj.subs({lam: val})
+    if form == 1:
+        return obj.subs(lam, val)
+    if form == 2:
+        return obj.subs([(lam, val)])
+    return obj.subs(((lam, val),))
+
 def c_py(c):
     f = Fraction(c)
     return int(f) if f.denominator == 1 else float(f)
@@ -205,9 +217,9 @@ def run_seq_case(ctx, case, m):
     if impl != model:
         ctx.diff(fam + ":symbolic", case, impl, model)
     # ---- (iii) + (ii): subs versus the direct numeric build
-    for c, mc in zip(CS, m["at"]):
+    for ci, (c, mc) in enumerate(zip(CS, m["at"])):
         before = snapshot(H)
-        S = H.subs({LAM(): c_py(c)})
+        S = subs_form(H, c, ci + case.get("idx", 0))
         if snapshot(H) != before:
             ctx.violation("C16:subs-mutates", dict(case, c=c), "H.subs({lam: %s}) changed H" % c); return
         if S is H:
@@ -440,9 +452,9 @@ def run_reduce_case(ctx, case, m, info):
             if exc_name(e) != impl["err"]:
                 ctx.violation("C16:subs-differs:reduce", case, "symbolic penalty raises %s, numeric %s" % (impl["err"], exc_name(e)))
         return
-    for c, mc in zip(CS, m["at"]):
+    for ci, (c, mc) in enumerate(zip(CS, m["at"])):
         before = snapshot(R)
-        S = R.subs({LAM(): c_py(c)})
+        S = subs_form(R, c, ci + case.get("idx", 0))
         if snapshot(R) != before:
             ctx.violation("C16:subs-mutates", dict(case, c=c), "R.subs({lam: %s}) changed R" % c); return
         if S is R:
